@@ -146,7 +146,11 @@ pub fn make_writer(pid: i32, o: &DumpOpts) -> MinidumpWriter {
     // then shows up as a soft error. Whether a loaded machine makes that deadline is not something
     // the checks should depend on: unless a check sets the timeout itself, allow 30 s (the poll
     // returns as soon as the target is seen stopped, so this costs nothing).
-    w.stop_timeout(Duration::from_millis(o.stop_timeout_ms.unwrap_or(30_000)));
+    // (u64::MAX stands for Duration::MAX, the largest value a caller can configure)
+    w.stop_timeout(match o.stop_timeout_ms {
+        Some(u64::MAX) => Duration::MAX,
+        ms => Duration::from_millis(ms.unwrap_or(30_000)),
+    });
     w
 }
 
